@@ -13,24 +13,51 @@ DRV = None
 
 
 class StatFaults:
+    """Faults at the k-th file-system call made for a child.  failing: selector -> errno name (stat fails
+    always), or selector -> {"call": "stat" | "open", "from": k, "errno": name}: the k-th and every later
+    call of that kind for the selector (and, for open, for its sidecar files) fails; earlier ones go through.
+    arm() resets the counters."""
+
     def __init__(self, failing):
-        self.failing = failing     # selector -> errno name
-        self.orig = None
+        self.failing = {}
+        for sel, f in failing.items():
+            if isinstance(f, str):
+                f = {"call": "stat", "from": 1, "errno": f}
+            self.failing[sel] = f
+        self.counts = {}
+        self.orig_stat = self.orig_open = None
+
+    def arm(self):
+        self.counts = {}
+
+    def check(self, call, selector):
+        f = self.failing.get(selector)
+        if f is None or f["call"] != call:
+            return
+        k = self.counts.get((call, selector), 0) + 1
+        self.counts[(call, selector)] = k
+        if k >= f["from"]:
+            code = getattr(errno, f["errno"])
+            raise OSError(code, os.strerror(code), selector)
 
     def __enter__(self):
-        self.orig = hbase.VFS_Real.stat
-        failing, orig = self.failing, self.orig
+        self.orig_stat, self.orig_open = hbase.VFS_Real.stat, hbase.VFS_Real.open
+        me, ostat, oopen = self, self.orig_stat, self.orig_open
 
         def stat(vfs, selector):
-            if selector in failing:
-                code = getattr(errno, failing[selector])
-                raise OSError(code, os.strerror(code), selector)
-            return orig(vfs, selector)
+            me.check("stat", selector)
+            return ostat(vfs, selector)
+
+        def open_(vfs, selector, *a, **k):
+            me.check("open", selector)
+            return oopen(vfs, selector, *a, **k)
         hbase.VFS_Real.stat = stat
+        hbase.VFS_Real.open = open_
         return self
 
     def __exit__(self, *a):
-        hbase.VFS_Real.stat = self.orig
+        hbase.VFS_Real.stat = self.orig_stat
+        hbase.VFS_Real.open = self.orig_open
 
 
 class Vanish:
@@ -79,6 +106,7 @@ def op_c12_faults(job):
         dirsel = job["dir"]
         base = "" if dirsel == "/" else dirsel
         failing = {base + "/" + n: e for n, e in (job.get("stat_faults") or {}).items()}
+        failing.update({base + "/" + n: e for n, e in (job.get("call_faults") or {}).items()})
         out = {"runs": {}, "protocols": {}}
         for kind in job["kinds"]:
             over = {k: dict(v) for k, v in cfg.items()}
@@ -87,9 +115,25 @@ def op_c12_faults(job):
             w.spec["config"] = over
             w.configure()
             vanish = list(job.get("vanish") or [])
-            with StatFaults(failing), Vanish(w.config, dirsel, vanish) as van:
+            if job.get("real_logger"):
+                # the failure may sit on the logging path: use the configured logger (logmethod = file);
+                # its output (raw bytes of file names included) goes to an in-memory stream
+                import io
+                import sys
+                import pygopherd.logger
+                pygopherd.logger.init(w.config)
+                saved_stdout = sys.stdout
+                sys.stdout = io.TextIOWrapper(io.BytesIO(), errors="surrogateescape")
+            with StatFaults(failing) as sf, Vanish(w.config, dirsel, vanish) as van0:
+                class Arm:      # re-arm both fault injectors before every run
+                    @staticmethod
+                    def arm():
+                        sf.arm()
+                        van0.arm()
+                van = Arm
                 world = c07.describe_world(w.config, w.root, dirsel,
-                                           stat_fail=set(job.get("stat_faults") or {}) | set(vanish))
+                                           stat_fail=set(job.get("stat_faults") or {}) | set(vanish),
+                                           unreadable=set(job.get("call_faults") or {}))
                 names = [c["name"] for c in world["children"]]
                 groups = {}
                 for p in job["perms"]:
@@ -105,12 +149,21 @@ def op_c12_faults(job):
                                      "ignorepatt": w.config.get("handlers.dir.DirHandler", "ignorepatt"),
                                      "extstrip": w.config.get("handlers.UMN.UMNDirHandler", "extstrip")}
                 prot = []
+                gave_up = []
+
                 def serve(rq, cfgobj):
+                    if gave_up:         # the listing of this directory never returns: do not wait again and again
+                        return {"out": "", "exc": "Timeout", "log": []}
                     van.arm()
                     try:
-                        r = c07.with_alarm(5, lambda: DRV.serve_once(cfgobj, DRV.s2b(rq["data"]), tls=rq["tls"]))
+                        r = c07.with_alarm(4, lambda: DRV.serve_once(cfgobj, DRV.s2b(rq["data"]), tls=rq["tls"]))
+                        if r["secs"] > 3.5:
+                            # the server's catch-all swallowed the alarm: the request did not return by itself
+                            gave_up.append(1)
+                            return {"out": r["out"], "exc": "Timeout", "log": r["log"][-2:]}
                         return {"out": r["out"], "exc": r["exc"], "log": r["log"][-2:]}
                     except c07.Timeout:
+                        gave_up.append(1)
                         return {"out": "", "exc": "Timeout", "log": []}
                 for rq in job.get("requests", []):
                     prot.append(serve(rq, w.config))
@@ -126,6 +179,8 @@ def op_c12_faults(job):
                     for rq in job["repeat_requests"]:
                         rep.append([serve(rq, w.config), serve(rq, w.config)])
                 out.setdefault("repeats", {})[kind] = rep
+            if job.get("real_logger"):
+                sys.stdout = saved_stdout
         return out
     finally:
         w.close()
